@@ -69,6 +69,7 @@ Verdict(c) ==
       verdictOk == IF Cs.conflicts THEN may ELSE ~must
       cliOk == CASE Cs.cli = "conflicts" -> may
                  [] Cs.cli = "ok" -> ~must
+                 [] Cs.cli = "skip" -> TRUE          \* the command was not run for this case (in-process verdict only)
                  [] OTHER -> FALSE
   IN [lalr |-> "v", c |-> c - 1, must |-> must, may |-> may, verdictOk |-> verdictOk, cliOk |-> cliOk,
       nlr1 |-> Cardinality(C), nlalr |-> Cardinality(Ms), nlox |-> Len(St),
